@@ -20,6 +20,17 @@ func main() {
 	flag.Parse()
 	base := runtime.NumGoroutine()
 	ops := checks.RaceOps(*mode)
+	if *mode == "same" {
+		// every operation runs in *g goroutines at once: contention of a call with itself
+		all := ops
+		ops = nil
+		for _, o := range all {
+			for k := 0; k < *g; k++ {
+				ops = append(ops, o)
+			}
+		}
+		*g = len(ops)
+	}
 	obs := make([]string, *g)
 	var wg sync.WaitGroup
 	start := make(chan struct{})
